@@ -135,7 +135,7 @@ def order_rule(model, rep):
         for x in ast.walk(fn):
             if isinstance(x, ast.Attribute) and x.attr in ("predecessor_indices", "predecessors", "in_edges"):
                 n += 1
-                if not (mod == "system" and qn == "System._get_parents"):
+                if not (mod == "system" and qn == "System._get_parents") and not (mod == "system" and sysrules.reads_back_in_order(model, fn, reg)):
                     ok = False
                     rep.violation("R2", "%s.%s" % (mod, qn), "%s:%d" % (model.rel(mod), x.lineno), "the unordered predecessor view of the graph is consumed outside _get_parents: the result then depends on edge creation order, i.e. on the edit history", "predecessor consumer " + qn)
     rep.instance("R2", "unordered predecessor view consumed only by _get_parents", model.rel("system") + ":1", ok, "%d use(s)" % n)
